@@ -7,9 +7,12 @@ open IdModel.Doc IdModel.Store
 
 def parseMask (t : String) : Option Faults :=
   match t.toList with
-  | [a, b, c, d, e] =>
+  | [a, b, c, d, e, x, y, z] =>
+    -- the last three (exists, sign, insert) name calls the modelled operations do not make
     let bit (ch : Char) : Option Bool := if ch == '1' then some true else if ch == '0' then some false else none
-    do pure ⟨← bit a, ← bit b, ← bit c, ← bit d, ← bit e⟩
+    do
+      let _ ← bit x; let _ ← bit y; let _ ← bit z
+      pure ⟨← bit a, ← bit b, ← bit c, ← bit d, ← bit e⟩
   | _ => none
 
 def parseFragArg (t : String) : Option (Option (Option Nat)) :=
